@@ -14,6 +14,8 @@ package pstoremgr
 //@   ensures [no-nil-addresses] forall i int :: 0 <= i && i < len(addrs) ==> addrs[i] != nil
 //@   loop 1 (for scanner.Scan())
 //@     invariant forall i int :: 0 <= i && i < len(addrs) ==> addrs[i] != nil
+// "skipped rather than fatal": no line ends the read; the loop is left only when the scanner has nothing more
+//@     on_break [a-bad-line-never-ends-the-read] false
 //@   modifies nothing
 
 // ---- "reads back as the same addresses in the same priority order, and unparsable lines are skipped rather than fatal" ----
